@@ -969,6 +969,12 @@ impl Model {
                 if def.index_names.contains(name) {
                     return Err(ErrClass::AlreadyExists);
                 }
+                // index names are catalogue-wide: an index of ANY table this transaction can see reserves its name
+                for oi in 0..self.tables.len() {
+                    if oi != ti && self.table_visible(t, &self.tables[oi]) && self.def_for(t, &self.tables[oi]).index_names.contains(name) {
+                        return Err(ErrClass::AlreadyExists);
+                    }
+                }
                 if self.txs[t as usize].explicit || self.active_txs().len() > 1 {
                     self.hazard(KF_INDEX_DDL_IN_TXN);
                 }
